@@ -39,6 +39,7 @@ type vC02World struct {
 	w    *verifWallet
 	rng  *rand.Rand
 	pool []*verifgen.Out
+	dead []*verifgen.Out // threshold above the key count: can never be spent, offered occasionally
 	n    int
 }
 
@@ -258,7 +259,11 @@ func (wd *vC02World) settle(tx *common.VersionedTransaction, specs []verifgen.Ou
 	wd.pool = keep
 	for _, o := range verifgen.OutsOf(tx, specs) {
 		if o.Type == common.OutputTypeScript && len(o.Owners) == len(o.Keys) && len(o.Keys) > 0 {
-			wd.pool = append(wd.pool, o)
+			if o.Threshold() > len(o.Keys) {
+				wd.dead = append(wd.dead, o)
+			} else {
+				wd.pool = append(wd.pool, o)
+			}
 		}
 	}
 	return nil
@@ -279,7 +284,16 @@ func (wd *vC02World) pick(n int) []*verifgen.Out {
 	if n > len(same) {
 		n = len(same)
 	}
-	return same[:n]
+	res := append([]*verifgen.Out{}, same[:n]...)
+	if wd.rng.Intn(25) == 0 {
+		for _, d := range wd.dead {
+			if d.Asset == first.Asset {
+				res[wd.rng.Intn(len(res))] = d
+				break
+			}
+		}
+	}
+	return res
 }
 
 // subset chooses the signer indexes of one input.
@@ -950,9 +964,9 @@ func TestVerif_C02(t *testing.T) {
 		t.Fatal("torsion constant is not a point of order 8")
 	}
 
-	ncand := r.N(1600, 16000)
-	tamperBudget := r.N(40000, 400000)
-	nbatch := r.N(1200, 12000)
+	ncand := r.N(1400, 14000)
+	tamperBudget := r.N(36000, 360000)
+	nbatch := r.N(1000, 10000)
 	accepted, acceptedAgg, acceptedDeep, forgedRejected, tampers := 0, 0, 0, 0, 0
 	for i := 0; i < ncand; i++ {
 		if len(wd.pool) < 12 {
